@@ -6,8 +6,14 @@ import hv
 from hv import Case
 
 SPEC = {
-    "lean_modules": ["Honeycomb.Props.C03", "Honeycomb.Props.C03b"],
+    "lean_modules": ["Honeycomb.Props.C03", "Honeycomb.Props.C03b", "Honeycomb.Props.C03Gen"],
+    # Gen/OrbitArms.lean is re-translated from dim2/orbits.rs, dim3/orbits.rs, dim3/basic_ops.rs before every build
+    "gen": ["orbits"],
     "required_theorems": [
+        # Props/C03Gen.lean: the translated arms of orbit / orbit_transac and the push lists of the 3-D identifier walks are
+        # the images of the model
+        "C03_gen_orbit2_arms", "C03_gen_orbit2_complete", "C03_gen_orbit2_plain_eq_transac",
+        "C03_gen_orbit3_arms", "C03_gen_orbit3_complete", "C03_gen_orbit3_plain_eq_transac", "C03_gen_id_pushes3",
         "C03_generic_bfs",
         "C03_orbit2_spec",
         "C03_orbit2_volume_panics",
